@@ -24,7 +24,7 @@ HolderKinds == {"prop", "items", "tuple", "addprops", "additems", "allof", "alia
                 "patprop", "anyof", "oneof", "not", "nesteddefs"}
 AuxHolders  == {"auxresp", "auxparam", "auxpathitem"}
 SecondKinds == {"none", "code", "prop2", "same"}
-Collisions  == {"none", "exact", "case", "twoimports"}
+Collisions  == {"none", "exact", "case", "twoimports", "gennames"}
 
 AuxTargets  == {"aux1", "aux2", "aux3", "trans", "selfrec", "mutual", "auxarrayself", "diamond", "uptrans", "crosstrans", "recdep"}
 AnonTargets == {"anonprop", "anonitems", "anonallof", "anonsibling"}
@@ -192,6 +192,11 @@ Collide(c, t) ==
                        path |-> ("P_3" :> PathItemWith([get |-> Mk([operationId |-> "third"], [responses |-> Mk(<<>>, ("200" :> Resp([schema |-> RefTo(<<"root", "definitions", "C_1">>)])))])]))]
     [] c = "twoimports" -> [defs |-> <<>>, aux |-> [aux3 |-> AuxDoc([N_1 |-> ObjP([N_18 |-> Int])])],
                        path |-> ("P_3" :> PathItemWith([get |-> Mk([operationId |-> "third"], [responses |-> Mk(<<>>, ("200" :> Resp([schema |-> RefTo(<<"aux3", "definitions", "N_1">>)])))])]))]
+    \* the root already owns TWO definitions, spelled alike up to letter case, under the name full flattening generates for the inline
+    \* schema of holder "nested" (G_1 = the generated name of definitions/N_8/properties/N_9, G_2 = its case variant; bound by the harness)
+    [] c = "gennames" -> [defs |-> [G_1 |-> Mk([type |-> "integer", format |-> "int32"], <<>>), G_2 |-> Mk([type |-> "string"], <<>>)], aux |-> <<>>,
+                       path |-> ("P_3" :> PathItemWith([get |-> Mk([operationId |-> "third"], [responses |-> Mk(<<>>, ("200" :> Resp([schema |-> RefTo(<<"root", "definitions", "G_1">>)]) @@
+                                                                                                                             "201" :> Resp([schema |-> RefTo(<<"root", "definitions", "G_2">>)])))])]))]
 
 Op2(at, ch) == Mk(at, ch)
 
@@ -201,6 +206,7 @@ ValidCombo(t, s, h, h2, c) ==
   /\ (t \in {"arrayself", "mapself", "auxarrayself"} => s = "prim")           \* the shape is fixed by the kind
   /\ (c # "none" => t \in {"aux1", "aux2", "diamond", "recdep"} /\ RefFreeShape(s))
   /\ (c = "twoimports" => t # "aux3")
+  /\ (c = "gennames" => h = "nested" /\ t \in {"aux1", "diamond"})
   /\ (c # "none" /\ t = "diamond" => RefFreeShape(s))
   /\ (s = "ptrarray" <=> FALSE) \/ (s = "ptrarray" /\ t = "anonprop")
   /\ (h \in AuxHolders => t \in {"aux1", "selfrec", "mutual", "diamond"} /\ h2 \in {"none", "code"} /\ c = "none")
